@@ -4,6 +4,7 @@ import (
 	"context"
 	"errors"
 	"fmt"
+	"os"
 	"runtime"
 	"strconv"
 	"strings"
@@ -27,13 +28,16 @@ func (e *pvErr) Error() string { return "pv:" + strconv.Itoa(e.v) }
 // Run is one lane under observation: the recorder of its history and the handles of everything
 // the scenario started.
 type Run struct {
-	Name      string
-	N, Q      int
-	G         *Gate
-	L         *tasklane.TaskLane
-	timeout   time.Duration
-	rawStarts atomic.Int64 // Start() calls of an unrecorded run
-	Record    bool         // false: no events (pure race hunting, no synchronisation added by the recorder)
+	Name       string
+	N, Q       int
+	G          *Gate
+	L          *tasklane.TaskLane
+	timeout    time.Duration
+	panicNilPV int          // value id shared by the panic(nil) tasks of this run
+	nilTaskPV  int          // value id shared by the nil Tasks of this run (their "panic" is the lane's nil dereference)
+	ForceM     bool         // histories with synthesized events go to the monitors only
+	rawStarts  atomic.Int64 // Start() calls of an unrecorded run
+	Record     bool         // false: no events (pure race hunting, no synchronisation added by the recorder)
 
 	mu      sync.Mutex
 	evs     []string
@@ -70,6 +74,18 @@ func (r *Run) Start(timeout time.Duration) {
 	}
 }
 
+// StartExact creates the lane and calls SetTimeout(timeout) whatever the value (zero and negative included).
+func (r *Run) StartExact(timeout time.Duration) {
+	r.L = tasklane.New(r.G, r.N, r.Q)
+	r.timeout = timeout
+	r.L.SetTimeout(timeout)
+}
+
+// PanicNilIsNil: the process runs with GODEBUG=panicnil=1: panic(nil) makes recover() return nil, i.e. the lane
+// cannot tell such a task from one that returned (and LastPanic is not touched). With the default setting
+// panic(nil) raises a *runtime.PanicNilError like any other panic value.
+var PanicNilIsNil = strings.Contains(os.Getenv("GODEBUG"), "panicnil=1")
+
 func (r *Run) rec(ev string) {
 	if !r.Record {
 		return
@@ -94,16 +110,18 @@ func (r *Run) Events() int {
 // ---- gate tasks ----
 
 type Task struct {
-	ID    int
-	r     *Run
-	gate  chan struct{} // nil: does not block
-	sleep time.Duration
-	spin  int
-	pv    int // value id, -1 = returns normally
-	pval  any
-	once  sync.Once
-	kind  string        // dynamic type of the value handed to PushTask (kinds.go)
-	wrap  tasklane.Task // the value pushed instead of the *Task itself, nil = the pointer
+	ID       int
+	r        *Run
+	gate     chan struct{} // nil: does not block
+	sleep    time.Duration
+	spin     int
+	pv       int // value id, -1 = returns normally
+	pval     any
+	once     sync.Once
+	panicNil bool          // Start() does panic(nil)
+	isNil    bool          // the value handed to PushTask is the nil Task; this record only carries its id
+	kind     string        // dynamic type of the value handed to PushTask (kinds.go)
+	wrap     tasklane.Task // the value pushed instead of the *Task itself, nil = the pointer
 }
 
 // NewTask: gated tasks block in Start() until Release(); pv >= 0 makes Start() panic with value id pv.
@@ -138,6 +156,47 @@ const (
 
 // PVWithSlice is a panic value of a struct type that is not comparable.
 type PVWithSlice struct{ V []int }
+
+// NewPanicNilTask: a task whose Start() does panic(nil).
+func (r *Run) NewPanicNilTask() *Task {
+	t := r.NewTask(false, 0, false)
+	r.mu.Lock()
+	defer r.mu.Unlock()
+	if r.panicNilPV == 0 {
+		r.nextPV++
+		r.panicNilPV = r.nextPV
+	}
+	t.pv, t.panicNil = r.panicNilPV, true
+	return t
+}
+
+// NewNilTask: the nil Task value. PushTask accepts it; the worker's call of its Start() is a nil dereference
+// that the lane recovers like any task panic. Its start cannot be observed by the task itself: the scenario
+// calls MarkNilRan once Status() shows that the lane has dealt with it.
+func (r *Run) NewNilTask() *Task {
+	t := r.NewTask(false, 0, false)
+	r.mu.Lock()
+	defer r.mu.Unlock()
+	if r.nilTaskPV == 0 {
+		r.nextPV++
+		r.nilTaskPV = r.nextPV
+	}
+	t.pv, t.isNil, t.kind = r.nilTaskPV, true, "nil"
+	r.ForceM = true
+	return t
+}
+
+// MarkNilRan records S/F for a nil task that the lane is known (through Status) to have taken and "run".
+func (r *Run) MarkNilRan(t *Task) {
+	r.mu.Lock()
+	defer r.mu.Unlock()
+	if r.nS[t.ID] > 0 {
+		return
+	}
+	r.evs = append(r.evs, "S:"+strconv.Itoa(t.ID), "F:"+strconv.Itoa(t.ID)+":p"+strconv.Itoa(t.pv))
+	r.nS[t.ID]++
+	r.nF[t.ID]++
+}
 
 // NewSamePanicTask: a task that panics with the SAME value (same id, identical interface value) as prev.
 func (r *Run) NewSamePanicTask(prev *Task) *Task {
@@ -213,6 +272,21 @@ func (r *Run) pvID(x any) int {
 		if len(v.V) == 1 {
 			return v.V[0]
 		}
+	case *runtime.PanicNilError:
+		r.mu.Lock()
+		defer r.mu.Unlock()
+		if r.panicNilPV > 0 {
+			return r.panicNilPV
+		}
+	case runtime.Error:
+		// a nil Task is a task that panics when the lane calls its Start(): nil pointer dereference
+		if strings.Contains(v.Error(), "nil pointer dereference") {
+			r.mu.Lock()
+			defer r.mu.Unlock()
+			if r.nilTaskPV > 0 {
+				return r.nilTaskPV
+			}
+		}
 	case *PVStruct:
 		if v == nil {
 			r.mu.Lock()
@@ -266,7 +340,7 @@ func (t *Task) startWith(body func()) {
 		body()
 	}
 	res := "ret"
-	if t.pv >= 0 {
+	if t.pv >= 0 && !(t.panicNil && PanicNilIsNil) {
 		res = "p" + strconv.Itoa(t.pv)
 	}
 	if r.Record {
@@ -275,6 +349,10 @@ func (t *Task) startWith(body func()) {
 		r.nF[t.ID]++
 		r.cur--
 		r.mu.Unlock()
+	}
+	if t.panicNil {
+		var none any
+		panic(none) // panic(nil)
 	}
 	if t.pv >= 0 {
 		panic(t.pval) // F was recorded before the panic unwinds into the lane
